@@ -1,6 +1,7 @@
 package main
 
 import (
+	"encoding/json"
 	"fmt"
 	"go/ast"
 	"go/importer"
@@ -188,6 +189,9 @@ func checkC09(c *Ctx) {
 		return
 	}
 	c.TLC(mc)
+	if !c09Cache(c) {
+		return
+	}
 	c.Set("mc_bounds", "all import lists up to the bound over 2 names x 3 paths (one \"C\") x alias in {none, a, b, _, .}")
 	tr := &ndjson{}
 	// scenario programs
@@ -288,4 +292,160 @@ func checkC09(c *Ctx) {
 	}
 	c.Set("identifiers", tr.Len())
 	c.Set("rule", "case = one identifier of a type-checked program (9 hand-written multi-package scenarios and standard-library packages checked from source) with its role from go/types and the paths both resolvers assign; non-trivial = the identifier is a qualified or dot-imported remote reference; distinct by position")
+}
+
+// ---- the syntax-based resolver as an object with state (ResolveCache.tla) ----
+
+const resolveCacheMC = `---- MODULE ResolveCacheMC ----
+EXTENDS ResolveCache
+MCNameOf == [p \in ImpPaths |-> CASE p = "p1" -> "a" [] p = "p2" -> "a" [] p = "p3" -> "b" [] p = "pu" -> "" [] OTHER -> "C"]
+====
+`
+
+func resolveCacheCfg(maxSpecs, maxCalls int, variant string, emit bool) string {
+	return fmt.Sprintf("CONSTANTS Names = {\"a\",\"b\"} ImpPaths = {\"p1\",\"p2\",\"p3\",\"pu\",\"C\"} MaxSpecs = %d MaxCalls = %d Variant = \"%s\" EmitHist = %s\nNameOf <- MCNameOf\nINIT Init\nNEXT Next\nINVARIANTS EveryCallDecides HistoryFree AnswersSound Emit\nVIEW View\nCHECK_DEADLOCK FALSE\n", maxSpecs, maxCalls, variant, tlaBool(emit))
+}
+
+type rcSpec struct{ Alias, Path, Name string }
+type rcCall struct {
+	F    string
+	Err  bool
+	A, B string
+}
+type rcBeh struct {
+	Specs []rcSpec
+	Hist  []rcCall
+}
+
+func rcSource(specs []rcSpec) string {
+	var sb strings.Builder
+	sb.WriteString("package main\n\n")
+	if len(specs) > 0 {
+		sb.WriteString("import (\n")
+		for _, s := range specs {
+			sb.WriteString("\t")
+			if s.Alias != "" {
+				sb.WriteString(s.Alias + " ")
+			}
+			sb.WriteString(strconv.Quote(s.Path) + "\n")
+		}
+		sb.WriteString(")\n\n")
+	}
+	sb.WriteString("var _ = a.T\n\nvar _ = b.T\n")
+	return sb.String()
+}
+
+// rcReplay runs one history of calls on one real goast resolver and compares every answer with the
+// specification's.
+func rcReplay(b rcBeh) string {
+	fset := token.NewFileSet()
+	files := map[string]*ast.File{}
+	var perr error
+	files["A"], perr = parser.ParseFile(fset, "a.go", rcSource(b.Specs), parser.ParseComments)
+	if perr != nil {
+		return "harness: " + perr.Error()
+	}
+	files["B"], _ = parser.ParseFile(fset, "b.go", rcSource([]rcSpec{{"", "p3", "b"}}), parser.ParseComments)
+	res := goast.WithResolver(simple.New(map[string]string{"p1": "a", "p2": "a", "p3": "b"}))
+	sel := func(f *ast.File, x string) *ast.SelectorExpr {
+		var out *ast.SelectorExpr
+		ast.Inspect(f, func(n ast.Node) bool {
+			if se, ok := n.(*ast.SelectorExpr); ok {
+				if id, ok := se.X.(*ast.Ident); ok && id.Name == x {
+					out = se
+				}
+			}
+			return true
+		})
+		return out
+	}
+	for i, want := range b.Hist {
+		f := files[want.F]
+		var got rcCall
+		got.F = want.F
+		msg := guard(func() {
+			sa, sb := sel(f, "a"), sel(f, "b")
+			pa, ea := res.ResolveIdent(f, sa, "Sel", sa.Sel)
+			pb, eb := res.ResolveIdent(f, sb, "Sel", sb.Sel)
+			got.Err = ea != nil || eb != nil
+			if (ea != nil) != (eb != nil) {
+				got.A = "<one call refused, the other did not>"
+			} else if !got.Err {
+				got.A, got.B = pa, pb
+			}
+		})
+		if msg != "" {
+			return fmt.Sprintf("call %d on file %s panicked: %s", i+1, want.F, msg)
+		}
+		if got != want {
+			return fmt.Sprintf("call %d on file %s: the resolver answered err=%v a=%q b=%q, the specification err=%v a=%q b=%q", i+1, want.F, got.Err, got.A, got.B, want.Err, want.A, want.B)
+		}
+	}
+	return ""
+}
+
+func c09Cache(c *Ctx) bool {
+	ms, mc := 2, 3
+	if !c.Quick() {
+		ms, mc = 3, 4
+	}
+	files := map[string][]byte{"ResolveCacheMC.tla": []byte(resolveCacheMC)}
+	r, err := RunTLC(TLCRun{Module: "ResolveCacheMC", Cfg: resolveCacheCfg(ms, mc, "ok", false), Workers: 8, Timeout: 20 * time.Minute, Files: files})
+	if err != nil || !r.OK() {
+		c.Infra("TLC model check of ResolveCache failed: " + errText(r, err))
+		return false
+	}
+	c.TLC(r)
+	v, err := RunTLC(TLCRun{Module: "ResolveCacheMC", Cfg: resolveCacheCfg(2, 3, "storeEarly", false), Workers: 8, Timeout: 20 * time.Minute, Files: files})
+	if err != nil || v.Violated != "EveryCallDecides" {
+		c.Infra("TLC did not reject the storeEarly variant of ResolveCache: " + errText(v, err))
+		return false
+	}
+	c.TLC(v)
+	gen, err := RunTLC(TLCRun{Module: "ResolveCacheMC", Cfg: resolveCacheCfg(ms, mc, "ok", true), Workers: 8, Timeout: 20 * time.Minute, Files: files})
+	if err != nil || !gen.OK() {
+		c.Infra("TLC generation run of ResolveCache failed: " + errText(gen, err))
+		return false
+	}
+	c.TLC(gen)
+	behs := gen.Payloads("BEH ")
+	if len(behs) == 0 {
+		c.Infra("TLC emitted no ResolveCache behaviours")
+		return false
+	}
+	c.Set("resolver_histories_replayed", len(behs))
+	c.Set("resolver_history_bounds", fmt.Sprintf("all import lists of <= %d specs over 5 aliases x 5 paths (two paths share a name, one is unresolvable, one is \"C\") x all sequences of %d calls on that file and a second file, one shared resolver", ms, mc))
+	for _, bs := range behs {
+		var b rcBeh
+		if err := json.Unmarshal([]byte(bs), &b); err != nil {
+			c.Infra("bad ResolveCache behaviour: " + err.Error())
+			return false
+		}
+		refused := false
+		for _, h := range b.Hist {
+			refused = refused || h.Err
+		}
+		c.Eval("resolver-history|"+bs, refused)
+		c.Traces(1)
+		if msg := rcReplay(b); msg != "" {
+			if strings.HasPrefix(msg, "harness:") {
+				c.Infra(msg)
+				return false
+			}
+			c.Fail(Finding{Sig: "goast-history-dependent", Input: "resolver-history|" + shortHash(bs), What: "imports " + truncate(rcSource(b.Specs), 200) + ": " + msg, Replay: obj{"kind": "c09cache", "beh": bs}})
+		}
+	}
+	return true
+}
+
+func init() {
+	replayers["c09cache"] = func(raw json.RawMessage) string {
+		var r struct{ Beh string }
+		json.Unmarshal(raw, &r)
+		var b rcBeh
+		if json.Unmarshal([]byte(r.Beh), &b) != nil {
+			return ""
+		}
+		return rcReplay(b)
+	}
 }
